@@ -1,0 +1,8 @@
+//go:build verif
+
+package verifapi
+
+import "github.com/tidwall/tile38/internal/server"
+
+// LuaReachable lists every name reachable from a script's globals.
+func LuaReachable() []string { return server.VerifLuaReachable() }
